@@ -1,8 +1,14 @@
-(* Whole-build theorems over the integrated pipeline model (Res/Pipeline.v).  Statements only:
-   every proof is `exact lemma` (lemmas in Res/PipelineProofs.v). *)
+(* Whole-build theorems over the integrated pipeline model (Res/Pipeline.v: accumulate -> generators ->
+   transformers in the generated builtin order -> hash -> name references -> sort -> strip).
+   Statements only: every proof is `exact lemma` (lemmas in Res/PipelineProofs.v).
+   These theorems extend the coverage of C02, C11, C19, C01 and C07 to whole builds. *)
 From KV Require Import Res.Pipeline Res.PipelineProofs.
+From KV Require Res.Labels Res.Hygiene.
 
-(* the generated transformer / generator order is fully classified by the model *)
+(* ---------- generated tables ---------- *)
+
+(* every builtin transformer kind of configureBuiltinTransformers is classified (modelled or out of scope),
+   all modelled ones occur, none twice; the model runs them in the generated order *)
 Theorem Gen_transformer_order_known : transformer_order_known_b = true.
 Proof. exact gen_transformer_order_known. Qed.
 Print Assumptions Gen_transformer_order_known.
@@ -10,3 +16,82 @@ Print Assumptions Gen_transformer_order_known.
 Theorem Gen_generator_order_known : generator_order_known_b = true.
 Proof. exact gen_generator_order_known. Qed.
 Print Assumptions Gen_generator_order_known.
+
+(* the relative order the per-property slices assume: namespace, prefix, suffix, labels, annotations *)
+Theorem Gen_transformer_order_modelled :
+  filter (fun n => str_in n modelled_transformers) gen_transformer_order =
+  ["NamespaceTransformer"; "PrefixTransformer"; "SuffixTransformer"; "LabelTransformer"; "AnnotationsTransformer"]%string.
+Proof. exact gen_transformer_order_modelled. Qed.
+Print Assumptions Gen_transformer_order_modelled.
+
+(* ---------- C11: relocation ----------
+   The syntax of the model has no paths: a resources entry is a file's documents or a sub-kustomization, which
+   is the faithful abstraction of FileLoader (every path is resolved relative to the referencing root and only
+   the loaded CONTENT flows on).  Directory names are carried as uninterpreted labels; the theorem says that no
+   function of the build reads them: any renaming of directories (injective or not) leaves the build unchanged. *)
+Theorem PIPE_relocate :
+  forall nonstr (f : string -> string) o t, build nonstr o (rename_dirs f t) = build nonstr o t.
+Proof. exact build_relocate. Qed.
+Print Assumptions PIPE_relocate.
+
+(* ---------- C11: wrapping ----------
+   Full statement: build (wrap T) = build T for every kustomization directory T.
+   Proved: ... whenever the ids T accumulates are pairwise distinct; and (PIPE_wrap_collision) when they are NOT,
+   the wrapper fails - MergeAccumulator's AppendAll is the only thing a directive-less layer adds.
+   Missing for the unconditional statement: the invariant that accumulateTarget always returns pairwise distinct
+   ids (it holds after Append/AppendAll and after the namespace transformer by their own checks; prefix / suffix /
+   label transformers do not re-check, and C07_ids_unique_layers proves the invariant at the id level only). *)
+Theorem PIPE_wrap_partial :
+  forall nonstr name o t,
+    (exists n d ents, t = PDir n d ents) ->
+    (forall m, accumulate nonstr t = Ok m -> distinct_ids m) ->
+    build nonstr o (wrap name t) = build nonstr o t.
+Proof. exact build_wrap. Qed.
+Print Assumptions PIPE_wrap_partial.
+
+Theorem PIPE_wrap_collision :
+  forall nonstr name o n d ents m,
+    accumulate nonstr (PDir n d ents) = Ok m -> ~ distinct_ids m ->
+    build nonstr o (wrap name (PDir n d ents)) = Err.
+Proof. exact build_wrap_collision. Qed.
+Print Assumptions PIPE_wrap_collision.
+
+(* ---------- C19: commonLabels vs labels[{pairs, includeSelectors: true}] ----------
+   Rewriting commonLabels of ANY subset of layers (selected by directory name) into a trailing `labels` entry
+   with includeSelectors - what FixKustomizationPreMarshalling does - never changes the build. *)
+Theorem PIPE_deprecated_spellings :
+  forall nonstr (which : string -> bool) o t, build nonstr o (respell_tree which t) = build nonstr o t.
+Proof. exact build_respell. Qed.
+Print Assumptions PIPE_deprecated_spellings.
+
+(* ---------- C07: hygiene and id uniqueness ---------- *)
+
+(* every output is the final strip of a document, and the strip leaves none of the kustomize-internal keys
+   (the generated list of Res/Hygiene.v) in metadata.annotations - for every document whose metadata does not
+   repeat the `annotations` key *)
+Theorem PIPE_hygiene :
+  forall nonstr o t outs,
+    build nonstr o t = Ok outs ->
+    exists pre, outs = map strip_node pre /\
+      forall n k, In n pre -> annos_once n -> In k Hygiene.internal_keys ->
+                  ~ In k (map fst (annos_of (strip_node n))).
+Proof. exact build_hygiene. Qed.
+Print Assumptions PIPE_hygiene.
+
+(* legacy order: the outputs of a successful build have pairwise distinct ids, unconditionally *)
+Theorem PIPE_ids_unique_legacy :
+  forall nonstr first last t outs,
+    build nonstr (PSortLegacy first last) t = Ok outs -> distinct_node_ids outs.
+Proof. exact build_ids_unique_legacy. Qed.
+Print Assumptions PIPE_ids_unique_legacy.
+
+(* fifo / no order: distinct whenever the ids are distinct right after the hash suffixes were added
+   (the hash step itself can create a clash: C07_ids_unique_hash_refuted) *)
+Theorem PIPE_ids_unique_fifo_partial :
+  forall nonstr o t outs,
+    (o = PSortNone \/ o = PSortFifo) ->
+    build nonstr o t = Ok outs ->
+    (forall m m1, accumulate nonstr t = Ok m -> mapM (hash_res nonstr) m = Ok m1 -> distinct_ids m1) ->
+    distinct_node_ids outs.
+Proof. exact build_ids_unique_fifo_partial. Qed.
+Print Assumptions PIPE_ids_unique_fifo_partial.
